@@ -1,9 +1,10 @@
 (* C14 — Copy never writes outside the destination root nor reads outside the source root.
    The lexical half (copy.rootPath and fs.RootPath start from filepath.Join("/", p)), the shape of
-   fs.RootPath's result, and the syscall-level containment theorems copy_rec_contained /
-   copy_contained over the file-system model (writes stay at or below dstRoot) are proved here;
-   the source-side statement (reads stay below srcRoot) is listed as unproved in props/C14.json and
-   is decided by the specification oracle on real copy.Copy runs inside a chroot jail. *)
+   fs.RootPath's result, the syscall-level containment theorems copy_rec_contained /
+   copy_contained over the file-system model (writes stay at or below dstRoot) and, for disjoint
+   roots, copy_reads_inside (the copier's source reads stay at or below srcRoot) are proved here;
+   what remains unproved (overlapping roots on the read side, fs.RootPath's own Lstat calls, which
+   are refuted) is listed in props/C14.json. *)
 From Coq Require Import List NArith Bool.
 From FS Require Import Sx Model.Path Model.Fs Model.RootPath Model.CopyFs Model.CopyFsSpec
   Proofs.Lex Proofs.PathP Proofs.CleanP Proofs.RootPathP Proofs.RootPathWitnessP Proofs.CopyContainedP
@@ -157,6 +158,28 @@ Theorem copy_contained :
 Proof. exact copy_contained_proof. Qed.
 Print Assumptions copy_contained.
 
+(* The source side.  s_reads is the model's log of the inodes named by the copier's own source-path
+   calls: Lstat of every entry it visits, the directory listings, os.Open of regular files, os.Stat of
+   the deferred parents (createParentDirs), the xattr reads (readlink names the inode Lstat did).
+   For every well-formed file system, every option set, selector, source / destination argument and
+   list of wildcard matches, when srcRoot and dstRoot are disjoint (neither lies at or below the
+   other): every inode read is srcRoot, a directory below it reached through real directories, or an
+   entry of such a directory — all in the INITIAL file system (the tree below srcRoot does not change
+   during the copy): the walk never follows a symlink out of srcRoot, whatever the links point to.
+   Not included: the Lstat calls inside fs.RootPath on the components of the path ARGUMENTS (they do
+   leave the root: rootpath_reads_outside_root_refuted) and reads on the destination side. *)
+Theorem copy_reads_inside :
+  forall fuel c o osl scs src dcs dst matches f0 dr sr s' res,
+    fs_wf f0 ->
+    forallb name_ok dcs = true -> chain f0 (c_root c) dcs dr -> (length dcs < rfuel)%nat ->
+    forallb name_ok scs = true -> chain f0 (c_root c) scs sr -> (length scs < rfuel)%nat ->
+    ~ inside_dir f0 dr sr -> ~ inside_dir f0 sr dr ->
+    has_nul src = false -> (forall l, matches = Some l -> forallb (fun m => negb (has_nul m)) l = true) ->
+    copy_top fuel c o osl (render scs) src (render dcs) dst matches (cst_init f0) = (s', res) ->
+    forall i, In i (s_reads s') -> src_reach f0 sr i.
+Proof. exact copy_reads_inside_proof. Qed.
+Print Assumptions copy_reads_inside.
+
 (* A symlink met at a target name "<dstRoot>/cs/x" (cs real directories) is never traversed:
    ensureEmptyFileTarget (non-directory source) unlinks it — the name is gone, the link inode and
    whatever it points to untouched — and copyDirectoryOnly (directory source) reports the conflict
@@ -201,3 +224,10 @@ Example copy_deferred_parent_example :
   /\ resolve_ino ctx_init (s_fs (fst wD_run)) [47;111;47;100;47;97] false = inl 4
   /\ get (s_fs (fst wD_run)) 4 = get wD 4.
 Proof. vm_compute. repeat split. eexists; reflexivity. Qed.
+
+(* non-vacuity of copy_reads_inside: what the two runs above read.  wC: only p/h = r/g (inode 7) and
+   the symlink q/h itself (9) — never its target /o/h (3); wD: srcRoot (5), b (7), b/a (8). *)
+Example copy_reads_examples :
+  s_reads (fst wC_run) = [7; 7; 7; 7; 9; 9; 9; 7; 7; 7; 7]%N
+  /\ s_reads (fst wD_run) = [7; 8; 7; 7; 5; 5; 5]%N.
+Proof. vm_compute. split; reflexivity. Qed.
